@@ -7,6 +7,17 @@
 (* projected mapping after it.  Batched: one TLC run validates all traces  *)
 (* of TRACE_FILE; <<"ACCEPTED", tid>> is printed for every trace that the  *)
 (* specification explains completely.                                      *)
+(* Events of caller-supplied objects (notes/SIZE_STRESS.md part 5):        *)
+(*   sortby   [kf, fn, fm]: sort_fields(key=f); kf is the sequence of key  *)
+(*            ranks indexed by name, fn the name f faults for (0: none),   *)
+(*            fm the fault mode                                            *)
+(*   iofault  [kind]: dump(fd) with a failing fd / parse of a failing      *)
+(*            iterator of the dumped lines                                 *)
+(*   updfault [ps]: update(iterable) where the iterable raises after       *)
+(*            having yielded the pairs ps - the statement does not say     *)
+(*            whether the pairs seen before the fault are assigned, so any *)
+(*            prefix of them may have been (unspecified zone, the caller's *)
+(*            exception must come out)                                     *)
 (***************************************************************************)
 EXTENDS OrderedMap, IOUtils, TLCExt
 
@@ -22,13 +33,26 @@ TInit == /\ tid \in 1..Len(Traces)
          /\ abs = Traces[tid].init
          /\ res = "ok"
 
-\* the statement leaves one case open: re-ordering an ABSENT key relative to itself
-Unspecified(e) == e.op \in {"before", "after"} /\ e.n = e.r /\ ~MHas(abs, e.n)
+Chk(P) == P = TRUE          \* pure checks inside an action must not branch
+\* the statement leaves one case open: re-ordering an ABSENT key relative to itself; the faults of
+\* caller-supplied objects add two (see OrderedMap: SortUnspec, IOUnspec)
+Unspecified(e) == \/ e.op \in {"before", "after"} /\ e.n = e.r /\ ~MHas(abs, e.n)
+                  \/ e.op = "sortby" /\ SortUnspec(abs, e.fn, e.fm)
+                  \/ e.op = "iofault" /\ IOUnspec(abs, e.kind)
+UnspecRes(e)   == IF e.op = "sortby" THEN {"ok", SortErr(e.fm)}
+                  ELSE IF e.op = "iofault" THEN {"ok", "CallerError"}
+                  ELSE {"KeyError", "ValueError"}
+RECURSIVE MSetAll(_, _, _)
+MSetAll(m, ps, j) == IF j = 0 THEN m ELSE MSet(MSetAll(m, ps, j - 1), ps[j].n, ps[j].s, ps[j].v)
 
 TStep == /\ l <= Len(Tr.events)
          /\ LET e == Tr.events[l] IN
               IF Unspecified(e)
-              THEN abs' = abs /\ res' = e.res /\ e.res \in {"KeyError", "ValueError"} /\ e.obs = abs
+              THEN abs' = abs /\ res' = e.res /\ Chk(e.res \in UnspecRes(e)) /\ Chk(e.obs = abs)
+              ELSE IF e.op = "updfault"
+              THEN /\ Chk(e.res = "CallerError") /\ res' = e.res
+                   /\ Chk(\E j \in 0..Len(e.ps) : e.obs = MSetAll(abs, e.ps, j))
+                   /\ abs' = e.obs
               ELSE /\ \/ e.op = "set"    /\ Set(e.n, e.s, e.v)
                       \/ e.op = "get"    /\ Get(e.n)
                       \/ e.op = "has"    /\ Has(e.n)
@@ -40,6 +64,8 @@ TStep == /\ l <= Len(Tr.events)
                       \/ e.op = "sort"   /\ Sort
                       \/ e.op = "copy"   /\ Copy
                       \/ e.op = "dumpparse" /\ DumpParse
+                      \/ e.op = "sortby" /\ SortBy(e.kf, e.fn, e.fm)
+                      \/ e.op = "iofault" /\ IOFault(e.kind)
                    /\ res' = e.res        \* the code returned / raised what the model says
                    /\ abs' = e.obs        \* and its observable mapping is the model's
          /\ l' = l + 1 /\ UNCHANGED tid
